@@ -12,11 +12,12 @@ sys.path.insert(0, "/repo")
 
 props = [json.loads(l) for l in (ROOT / "properties.jsonl").read_text().splitlines() if l.strip()]
 NA = json.loads((ROOT / "tools" / "not_applicable.json").read_text()) if (ROOT / "tools" / "not_applicable.json").exists() else {}
+READY = set((ROOT / "tools" / "ready.txt").read_text().split())  # checks integrated and swept silent by the coordinator
 checks, na, engines = [], [], {}
 for p in props:
     pid = p["id"]
     f = ROOT / "checks" / f"{pid.lower()}.py"
-    if pid in NA or not f.exists():
+    if pid in NA or not f.exists() or pid not in READY:
         na.append({"property_id": pid, "reason": NA.get(pid, "check not built yet (work in progress); not claimed")})
         continue
     m = importlib.import_module(f"checks.{pid.lower()}")
